@@ -18,8 +18,8 @@ add("c19__q__msgtype", 1, "own", "conv::msgtype::<_, C19>")
 add("c19__q__completion", 1, "own", "conv::completion::<_, C19>")
 for v in ["smbus_header", "transport_header", "body_header", "control_header", "routing_entry", "vendor_headers"]:
     add("c18__q__%s" % v, 40, "own", "views::%s::<_, C18>" % v)
-add("c17__q__probe259", 20, "own", "getlen::probe::<_, C17, 259>")
-add("c10__q__getlen259", 20, "own", "getlen::probe::<_, C10, 259>")
+add("c17__q__probe259", 262, "own", "getlen::probe::<_, C17, 259>")
+add("c10__q__getlen259", 262, "own", "getlen::probe::<_, C10, 259>")
 
 # ---------------------------------------------------------------- decode_packet on arbitrary bytes
 for pid, own, n in [("C02", "ign", 32), ("C09", "ign", 32), ("C10", "own", 32), ("C13", "ign", 20)]:
@@ -28,6 +28,10 @@ for pid, own in [("C02", "ign"), ("C09", "ign"), ("C10", "own")]:
     add("%s__t__dec_sym64" % pid.lower(), 67, own, "dec::sym::<_, %s, 64>" % pid)
     for n in [128, 255, 256, 257, 258, 259]:
         add("%s__t__dec_len%d" % (pid.lower(), n), n + 3, own, "dec::conc::<_, %s, %d>" % (pid, n))
+# seed-chosen spot lengths: tier "s" — the driver runs exactly one per (property, group), index VERIF_SEED % count
+for pid, own in [("C02", "ign"), ("C09", "ign"), ("C10", "own")]:
+    for n in range(33, 128):
+        add("%s__s__dec_len%d" % (pid.lower(), n), n + 3, own, "dec::conc::<_, %s, %d>" % (pid, n))
 add("c10__w__dec_req_unimpl", 19, "own", "dec::witness::<_, 0, 16>")
 add("c10__w__dec_resp_unimpl", 19, "own", "dec::witness::<_, 1, 16>")
 add("c10__w__dec_cc_range", 19, "own", "dec::witness::<_, 2, 16>")
@@ -48,6 +52,11 @@ for pid, own in [("C02", "ign"), ("C10", "own"), ("C11", "ign"), ("C12", "ign"),
 for pid in ["C03", "C04"]:
     for n in PROC_Q:
         add("%s__q__proc_len%d" % (pid.lower(), n), 70, "ign", "proc::one::<_, %s, %d, 3, 2, false>" % (pid, n))
+for pid, own in [("C10", "own"), ("C11", "ign")]:
+    for n in range(21, 41):
+        if n in PROC_T:
+            continue
+        add("%s__s__proc_len%d" % (pid.lower(), n), 70, own, "proc::one::<_, %s, %d, 3, 2, false>" % (pid, n))
 add("c10__t__proc_len259", 270, "own", "proc::one::<_, C10, 259, 3, 2, false>")
 add("c11__t__proc_len259", 270, "ign", "proc::one::<_, C11, 259, 3, 2, false>")
 # C14: 1..=16 vendor sets; only 13-byte packets carry the command
